@@ -163,6 +163,8 @@ def _solve(prob, engine_name):
     if "mc_bfs" not in env.factory.engines:
         env.factory.add_engine("mc_bfs", "mc.ref.plan_search", "McBfsPlanner")
     with env.factory.OneshotPlanner(name=engine_name) as planner:
+        if not planner.supports(prob.kind):
+            return None
         return planner.solve(prob)
 
 
@@ -218,6 +220,9 @@ def check_if(cid, acc):
                 "interpreted_functions_planning[mc_bfs].solve raised %s: %s" % (type(e).__name__, str(e)[:140]),
                 case,
             )
+        return
+    if res is None:
+        acc.count("skipped_unsupported_kind")
         return
     acc.outcome("if:%s:%s" % (res.status.name, "solvable" if solvable else "unsolvable"))
     if res.plan is not None:
@@ -275,6 +280,9 @@ def check_os(cid, gv, acc):
             "oversubscription[mc_bfs].solve raised %s: %s" % (type(e).__name__, str(e)[:140]),
             case,
         )
+        return
+    if res is None:
+        acc.count("skipped_unsupported_kind")
         return
     acc.outcome("os:%s" % res.status.name)
     if res.plan is not None:
